@@ -37,6 +37,8 @@ METHODS = {
     'a.b.c': [([0], {})],
     'nope': [([], {}), ([1], {})],
     '_us': [([], {}), ([1], {}), ([], {'a': [1]})],
+    'wrapped': [([1], {}), ([], {'a': 2}), ([], {})],
+    'rpc.ext': [([1], {}), ([], {'a': 2}), ([], {})],
 }
 
 
@@ -126,6 +128,8 @@ class C07(Check):
             {**base, 'notation': 'batch-getitem', 'other': 'batch-proxy', 'plan': [c('echo', [1, 2]), c('noargs', []), c('ret', [None])]},
             {**base, 'notation': 'proxy', 'other': 'send', 'plan': [c('rpc_err2', []), c('nope', [])]},
             {**base, 'notation': 'proxy', 'other': 'call', 'plan': [c('_us', [1]), n('_us', [])]},
+            {**base, 'notation': 'call', 'other': 'batch-add', 'plan': [c('wrapped', [1]), c('rpc.ext', [2]), {'method': 'rpc.ext', 'args': [], 'kwargs': {'a': 3}, 'kind': 'notification'}, c('wrapped', [], {'a': 4})]},
+            {**base, 'client': 'async', 'dispatcher': 'async', 'notation': 'batch-getitem', 'other': 'proxy', 'plan': [c('wrapped', [1]), c('rpc.ext', [2])]},
             {**base, 'notation': 'call', 'other': 'batch-add', 'plan': [c('rpc_err', [])],
              'behaviours': {'rpc_err': {'kind': 'raise_rpc', 'error': {'cls': 'Custom2006Refined', 'code': None, 'message': None, 'data': {'absent': True}}}}},
             {**base, 'client': 'async', 'dispatcher': 'async', 'notation': 'proxy', 'other': 'batch-proxy', 'plan': [c('_us', [], {'a': [1]})]},
